@@ -12,7 +12,7 @@ variable {N : Obs → Prop} {S : Store → Store → Prop} [hp : Policy N S] {P 
 omit hp in
 theorem poolInv_clearLog (s : Sess) (h : PoolInv P s) : PoolInv P s.clearLog := h
 
-theorem step_good (s : Sess) (e : Ev) (hP : PoolHyp N S P s.cfg) (hc : CfgHyp N S s.cfg) (h : PoolInv P s) (he : EvOK N S P e) :
+theorem step_good (s : Sess) (e : Ev) (hP : PoolHyp N S P s.cfg) (hc : CfgHyp N S s.cfg) (h : PoolInv P s) (he : EvOK N S P s.cfg e) :
     (∀ o ∈ (step s e).2.1, N o) ∧ S s.store (step s e).1.store ∧ (step s e).1.cfg = s.cfg ∧ PoolInv P (step s e).1 := by
   have g := good_stepCore (N := N) (S := S) s.clearLog e hP hc (poolInv_clearLog s h) he
   unfold step
@@ -28,7 +28,7 @@ theorem step_good (s : Sess) (e : Ev) (hP : PoolHyp N S P s.cfg) (hc : CfgHyp N 
   exact hn o ho
 
 theorem run_good (s : Sess) (evs : List Ev) (hP : PoolHyp N S P s.cfg) (hc : CfgHyp N S s.cfg) (h : PoolInv P s)
-    (he : ∀ e ∈ evs, EvOK N S P e) :
+    (he : ∀ e ∈ evs, EvOK N S P s.cfg e) :
     (∀ o ∈ _root_.traceOf s evs, N o) ∧ S s.store (_root_.runEvents s evs).store ∧ (_root_.runEvents s evs).cfg = s.cfg
       ∧ PoolInv P (_root_.runEvents s evs) := by
   induction evs generalizing s with
@@ -36,7 +36,7 @@ theorem run_good (s : Sess) (evs : List Ev) (hP : PoolHyp N S P s.cfg) (hc : Cfg
   | cons e es ih =>
     obtain ⟨h1, h2, h3, h4⟩ := step_good (N := N) (S := S) s e hP hc h (he e List.mem_cons_self)
     obtain ⟨i1, i2, i3, i4⟩ := ih (step s e).1 (by rw [h3]; exact hP) (by rw [h3]; exact hc) h4
-      (fun e' he' => he e' (List.mem_cons_of_mem _ he'))
+      (fun e' he' => by rw [h3]; exact he e' (List.mem_cons_of_mem _ he'))
     simp only [_root_.traceOf, _root_.runEvents]
     refine ⟨?_, hp.sTrans h2 i2, i3.trans h3, i4⟩
     intro o ho
